@@ -35,7 +35,7 @@ CLAIMED = {
              'ApiNamespace.normalize leaves types, aliases and routes sorted and complete for symbolic names/versions; the '
              'implicit catch-all of every open/closed union chain, nullability through alias chains, annotations and '
              'deprecation markers at every site of a template (IR vs AST), and closure / acyclicity / ordering invariants '
-             'of every accepted spec of the rule table.',
+             'of every accepted spec of the rule table; unqualified type names resolve in the declaring namespace for two namespaces declaring the same names, in both spec orders.',
         note=_FE_NOTE + ' Closure/registration of reachable types and linearisation order are structural and outside.',
         ref='4 (C01/C02/C03)'),
     'C03': dict(
@@ -94,7 +94,7 @@ CLAIMED = {
              'regexes; bytes; lists <= 3/4 items; values of every wrong kind) against the Stone type semantics; plus the '
              'generated classes of the catalogue: setattr on every primitive-built struct field and every typed union '
              'helper with symbolic values (valid shape and one wrong-kind mutation) succeeds iff a reference predicate '
-             'derived from the stone.ir type accepts, reads back equal; user-typed fields over a finite set of instances.',
+             'derived from the stone.ir type accepts, reads back equal; user-typed struct fields and user-typed union members (incl. all-optional and empty structs, None) over a finite set of instances.',
         note='Trusted: CrossHair/z3 and its regex engine, glue G1-G3. int->float conversion uses the real-number model '
              '(rounding/overflow outside). bool-as-number and NaN bounds are unspecified and not judged.',
         ref='4 (C08)'),
@@ -117,12 +117,17 @@ CLAIMED = {
              'comment-only next line never produces INDENT/DEDENT nor changes the level; the number and kind of dent tokens '
              'equals the level change; a full-line comment yields no NEWLINE, a trailing comment exactly one; inside '
              'parentheses a continuation is accepted iff indented by exactly one level; at end of input exactly `level` '
-             'DEDENTs are produced.',
+             'DEDENTs are produced. Plus, as a FINITE enumeration through specs_to_ir (the solver only picks the position): '
+             'every single-position layout edit (empty line, line of 1/4/8 spaces, comment line at three indentations, '
+             'trailing spaces, trailing comment, deletion of a blank/comment line; ~5400 edits) of six catalogue spec files '
+             'leaves the canonical API signature (vlib/apisig.py) unchanged.',
         note='Partial claim: the ordering / file-splitting / stdin clauses are structural and outside; tokenisation itself '
-             '(ply master regex) is outside. Unit harnesses on private lexer helpers resolved by name at start-up.',
+             '(ply master regex) is outside the symbolic part and is exercised by the text-level enumeration only. Unit '
+             'harnesses on private lexer helpers resolved by name at start-up. Trusted: vlib/apisig.py (what counts as '
+             'the API description a backend can observe).',
         ref='4 (C11)'),
     'C13': dict(
-        text='Bounded proof by symbolic execution over the annotated catalogue (Omitted for two caller classes, '
+        text='Bounded proof by symbolic execution over the annotated catalogue (Omitted for three caller classes, one of them camelCase; three-level struct and union chains; '
              'RedactedBlot/RedactedHash with and without regex on struct fields, union tags, inherited fields, aliases used '
              'directly / nullable / in lists / as map values / nested): (a) real encoder under every subset of caller '
              'classes equals the reference encoder that drops omitted fields (a refusal to encode a hidden tag is '
@@ -151,7 +156,7 @@ CLAIMED = {
              'by recording stubs: a path that an independent segment-stack resolver places outside the root is refused by '
              'AssertionError before any makedirs/open/copy, accepted writes land inside, manifest mode touches nothing '
              'and records the normalised relative path. Verbatim emission: emit/emit_raw/indent/block/placeholders with '
-             'symbolic text over { } % a space reach output_buffer_to_string byte for byte with the right indentation; '
+             'symbolic text over { } % a space (block delimiters None / empty / symbolic, K&R and Allman) reach output_buffer_to_string byte for byte with the right indentation; '
              'generate_multiline_list with symbolic (possibly equal) items equals a reference pretty-printer; the same '
              'output requested twice in a manifest run is never written.',
         note='Partial claim: manifest-vs-real-run fidelity for the built-in backends and emit_wrapped_text are outside. Trusted: glue G4 (CPython pure-Python normpath, cross-checked against '
@@ -162,8 +167,11 @@ CLAIMED = {
         text='Bounded proof by symbolic execution, expression-evaluation clause only: for a fixed list of expression '
              'skeletons (<= 3/4 atoms, and/or/parentheses, =/!=, literals of every kind) parsed by the real parser, '
              'FilterExpr*.eval on symbolic attribute values (None/bool/all ints/strings <= 3, each attribute present or '
-             'absent) agrees with an independent precedence-climbing evaluator.',
-        note='Partial claim: malformed expressions, -w/-b/-a pruning in cli.main and by-name table consistency are '
+             'absent) agrees with an independent precedence-climbing evaluator. Malformed expressions, as a FINITE enumeration '
+             '(the solver only picks the edit): every single token-level edit (delete / duplicate / swap / illegal '
+             'character / token replaced) of each listed expression reports errors exactly when an independent tokenizer '
+             '+ parser rejects the text.',
+        note='Partial claim: -w/-b/-a pruning in cli.main and by-name table consistency are '
              'outside (no symbolic value reaches them). Comparisons across kinds Python equates (True == 1) are '
              'unspecified and not judged.',
         ref='4 (C19)'),
